@@ -889,9 +889,19 @@ class TeX(object):
             if t.catcode != Token.CC_ESCAPE and \
                (t == begin or str(t) == str(begin)):
                 level = 1
+                bracelevel = 0
                 for t in tokens:
                     source.append(t)
-                    if t.catcode != Token.CC_ESCAPE and \
+                    # Delimiters inside of a { } group don't count
+                    if t.catcode == Token.CC_BGROUP:
+                        bracelevel += 1
+                        toks.append(t)
+                    elif t.catcode == Token.CC_EGROUP:
+                        bracelevel -= 1
+                        toks.append(t)
+                    elif bracelevel > 0:
+                        toks.append(t)
+                    elif t.catcode != Token.CC_ESCAPE and \
                        (t == begin or str(t) == str(begin)):
                         toks.append(t)
                         level += 1
